@@ -13,7 +13,7 @@ import sys
 REPO = os.environ.get("VERIF_REPO", "/repo")
 VERIF = os.path.dirname(os.path.dirname(os.path.abspath(__file__)))
 BUILD = os.path.join(VERIF, "build")
-EXT_ROOT = os.path.join(BUILD, "ext")
+EXT_ROOT = os.path.join(BUILD, "ext" if REPO == "/repo" else "ext-scratch")
 PYINC = "/root/.pyenv/versions/3.12.1/include/python3.12"
 PB11 = "/venv/lib/python3.12/site-packages/pybind11/include"
 SRCS = ["cfg", "cfg_logging", "pylogging", "reachable", "solver", "typegraph"]
@@ -71,8 +71,8 @@ def ensure_ext():
     os.rename(tmp, out)
   except OSError:
     shutil.rmtree(tmp, ignore_errors=True)  # lost a race; other build is fine
-  # prune stale builds
-  for d in os.listdir(EXT_ROOT):
+  # prune stale builds (only for the real repository; scratch copies may be used concurrently)
+  for d in (os.listdir(EXT_ROOT) if REPO == "/repo" else []):
     p = os.path.join(EXT_ROOT, d)
     if d != sha and ".tmp" not in d:
       shutil.rmtree(p, ignore_errors=True)
